@@ -2,6 +2,7 @@
 
 use crate::common::Scenario;
 use crate::dd_decode;
+use crate::dd_modcmp;
 use crate::e1;
 use crate::e2::E2;
 use crate::e2_arp;
@@ -15,6 +16,7 @@ use crate::e2_sock;
 use crate::e2_start;
 use crate::e2_udp;
 use crate::e3;
+use crate::ndl;
 
 static C05: E2<e2_link::Link> = E2(e2_link::Link);
 static C06: E2<e2_arp::ArpRes> = E2(e2_arp::ArpRes);
@@ -25,10 +27,11 @@ static C15: E2<e2_dhcp::Dhcp> = E2(e2_dhcp::Dhcp);
 static C16: E2<e2_route::Route> = E2(e2_route::Route);
 static C14: E2<e2_malformed::Malformed> = E2(e2_malformed::Malformed);
 static C18: E2<e2_cksum::Cksum> = E2(e2_cksum::Cksum);
+static C19: E2<ndl::Run> = E2(ndl::Run);
 static C04: E2<e2_udp::UdpBind> = E2(e2_udp::UdpBind);
 
 pub fn all() -> Vec<&'static dyn Scenario> {
-    vec![&e1::C01, &e1::C03, &e1::C12, &e1::C17, &e3::C11, &C05, &C04, &C06, &C02, &C13, &C20, &C15, &e2_dhcp::C15_GEN, &C16, &C18, &C14, &dd_decode::C14_DEC]
+    vec![&e1::C01, &e1::C03, &e1::C12, &e1::C17, &e3::C11, &C05, &C04, &C06, &C02, &C13, &C20, &C15, &e2_dhcp::C15_GEN, &C16, &C18, &C14, &dd_decode::C14_DEC, &dd_modcmp::C12_CMP, &C19, &ndl::C19_PARSE]
 }
 
 pub fn get(name: &str) -> Option<&'static dyn Scenario> {
